@@ -624,7 +624,8 @@ func peerServer(m *method, c *pconn, t string, r *hx.Rand, hkBlob []byte, o hx.O
 				qx, qy := new(big.Int).SetBytes(qc[1:1+bl]), new(big.Int).SetBytes(qc[1+bl:])
 				sx, sy := new(big.Int).Set(qx), new(big.Int).Set(qy)
 				buf := make([]byte, bl)
-				for b := int64(1); b < 1<<22; b++ {
+				deadline := time.Now().Add(6 * time.Second) // the real client waits 20 s for the reply: never search that long
+				for b := int64(1); b < 1<<22 && (b&1023 != 0 || time.Now().Before(deadline)); b++ {
 					if b > 1 {
 						sx, sy = m.ecl.Add(sx, sy, qx, qy)
 					}
@@ -1850,7 +1851,6 @@ func gen(g *hx.Gen) {
 				}
 				if m.name == "ecdh-sha2-nistp256" && g.Thorough() && round == 0 {
 					emitKex(g, m.name, hk, "ps", "lz2", " mm=-")
-					emitKex(g, m.name, hk, "pc", "lz3", " mm=-")
 				}
 			case "c25519":
 				for _, t := range append(append([]string(nil), x25519Tampers...), pktTampers...) {
